@@ -66,10 +66,12 @@ def _probe_closure(val, name, world=None):
         variants.append(base.cells[-1])
         variants.append(base.cells[-1][:1])
     for x in variants:
-        q = val + AnsiString('Z', _cell_settings(x))
+        probe = AnsiString('Z', _cell_settings(x))
+        own = observe(probe).cells[0]        # what the appended text reports on its own
+        q = val + probe
         oq = observe(q)
-        require(oq.text == base.text + 'Z' and oq.cells[-1] == tuple(x), name + '.closure_styled',
-                value=base.to_json(), probe=list(x), appended_cell=list(oq.cells[-1]) if oq.cells else None)
+        require(oq.text == base.text + 'Z' and sim(oq.cells[-1], own), name + '.closure_styled',
+                value=base.to_json(), probe=list(own), appended_cell=list(oq.cells[-1]) if oq.cells else None)
         for i in range(len(base.text)):
             require(sim(oq.cells[i], base.cells[i]), name + '.closure_styled_prefix', index=i, probe=list(x),
                     want=list(base.cells[i]), got=list(oq.cells[i]))
